@@ -617,11 +617,14 @@ func (c *chroniclerV2) runCompactionLocked() error {
 	// Close the writer so its file handle is released and all buffered data
 	// is flushed before the compactor reads the file.
 	if c.writer != nil && !c.writerClosed {
-		if err := c.writer.Close(); err != nil {
-			return err
-		}
+		err := c.writer.Close()
+		// Whether or not Close succeeded the writer has released its descriptor: forget it,
+		// so that the next Write opens the file again.
 		c.writerClosed = true
 		c.writer = nil
+		if err != nil {
+			return err
+		}
 	}
 
 	// Defensively wipe any leftover temp from a previously crashed run before
@@ -731,6 +734,11 @@ func (c *chroniclerV2) Close() error {
 			slog.Error("failed to close V2 chronicler writer",
 				"path", c.hydFilePath,
 				"error", err)
+			// The writer has released its file descriptor even though it failed. Forget it,
+			// so that the next Write opens the file again instead of writing to a closed
+			// descriptor for the rest of the swamp's life.
+			c.writerClosed = true
+			c.writer = nil
 			return err
 		}
 		c.writerClosed = true
